@@ -30,6 +30,10 @@ impl Tier {
 /// Number of runs of a tier. Fixed counts (not wall-clock budgets) keep coverage a function of the seed.
 pub fn runs_for(prop: &str, tier: Tier) -> u64 {
     let scale = std::env::var("VERIF_SCALE").ok().and_then(|s| s.parse::<f64>().ok()).unwrap_or(1.0);
+    if prop == "C02" {
+        let sampled = if tier == Tier::Quick { 100_000.0 } else { 1_000_000.0 };
+        return enum_runs(tier) + ((sampled * scale) as u64).max(1);
+    }
     let n: u64 = match (prop, tier) {
         ("C14", Tier::Quick) => 300_000,
         ("C14", Tier::Thorough) => 4_000_000,
@@ -37,6 +41,17 @@ pub fn runs_for(prop: &str, tier: Tier) -> u64 {
         (_, Tier::Thorough) => 1_000_000,
     };
     ((n as f64 * scale) as u64).max(1)
+}
+
+/// Runs of C02 spent on the complete single-fault sweep of base files (quota per base file).
+pub fn enum_bases(tier: Tier) -> u64 {
+    match tier {
+        Tier::Quick => 2,
+        Tier::Thorough => 64,
+    }
+}
+pub fn enum_runs(tier: Tier) -> u64 {
+    enum_bases(tier) * crate::gen_load::ENUM_QUOTA
 }
 
 pub fn generate(prop: &str, tier: Tier, seed: u64, run: u64) -> Trace {
@@ -58,10 +73,12 @@ pub fn generate(prop: &str, tier: Tier, seed: u64, run: u64) -> Trace {
         "C09" => crate::gen_term::gen_term("C09", &mut rng, run, thorough),
         "C10" if run % 4 == 3 => crate::gen_load::gen_load("C10", &mut rng, run, thorough),
         "C10" => crate::gen_term::gen_term("C10", &mut rng, run, thorough),
+        "C02" if run < enum_runs(tier) => crate::gen_load::gen_load_enum("C02", seed, run / crate::gen_load::ENUM_QUOTA, run % crate::gen_load::ENUM_QUOTA),
         "C02" => crate::gen_load::gen_load("C02", &mut rng, run, thorough),
         "C20" => crate::gen_gfx::gen_c20(&mut rng, run, thorough),
         "C08" => crate::edit::gen_edit(&mut rng, run, thorough),
         "C03" if run % 4 == 3 => crate::gen_load::gen_load("C03", &mut rng, run, thorough),
+        "C16" if run % 3 == 2 => crate::pal::gen_pal(&mut rng),
         "C16" => crate::gen_term::gen_term("C16", &mut rng, run, thorough),
         "C03" => crate::gen_term::gen_c03(&mut rng, run, thorough),
         _ => Trace::new(prop, "none"),
@@ -77,6 +94,7 @@ pub fn execute(trace: &Trace) -> Outcome {
         "sixel_direct" => run_sixel_direct(trace),
         "load" => crate::exec_load::run_load(trace),
         "edit" => crate::edit::run_edit(trace),
+        "pal" => crate::pal::run_pal(trace),
         other => Outcome {
             violation: None,
             ended: format!("harness_error:unknown scenario {other}"),
